@@ -207,16 +207,21 @@ def rule_ratioform(ctx: Ctx) -> List[Ob]:
               {"pos": (ub - x) / d, "neg": (lb - x) / d})]
     for q, names, dirn, ref in sites:
         f = ctx.repo.func(q)
+        from ..flow import Expander, selection_like
+        ex = Expander(ctx, f, only=selection_like)
         parents = {id(c): p for p in ast.walk(f.node) for c in ast.iter_child_nodes(p)}
         n = 0
         for w in walk_no_nested(f.node):
             if isinstance(w, ast.Call) and dotted(w.func) == "np.where" and len(w.args) == 3 and \
-                    any(isinstance(y, ast.Name) and y.id in ("lb", "ub") for a in w.args[1:] for y in ast.walk(a)):
+                    any(isinstance(y, ast.Name) and y.id in ("lb", "ub") for a in w.args[1:] for y in ast.walk(ex.expand_at(w, a))):
+                p = parents.get(id(w))
+                denom = p.right if isinstance(p, ast.BinOp) and isinstance(p.op, ast.Div) and p.left is w else None
+                site = w
+                w = ex.expand_at(site, w)
+                denom = ex.expand_at(site, denom) if denom is not None else None
                 c = w.args[0]
                 if not (isinstance(c, ast.Compare) and len(c.ops) == 1):
                     continue
-                p = parents.get(id(w))
-                denom = p.right if isinstance(p, ast.BinOp) and isinstance(p.op, ast.Div) and p.left is w else None
                 true_is_pos = isinstance(c.ops[0], (ast.Gt, ast.GtE))
                 for br, lab in ((w.args[1], "pos" if true_is_pos else "neg"), (w.args[2], "neg" if true_is_pos else "pos")):
                     n += 1
@@ -224,7 +229,7 @@ def rule_ratioform(ctx: Ctx) -> List[Ob]:
                     v = _componentwise(e, names)
                     ok, why = equal(v, Sc(ref[lab]))
                     obs.append(ob("RATIOFORM", f"bound ratio for {dirn} {'>' if lab == 'pos' else '<'} 0 is (bound - point)/direction",
-                                  f, w, ok, f"{short(e, 60)} = {v.e}" + ("" if ok else f"; reference {ref[lab]}; {why}"),
+                                  f, site, ok, f"{short(e, 60)} = {v.e}" + ("" if ok else f"; reference {ref[lab]}; {why}"),
                                   construct=f"{f.name}: ratio[{dirn}{'>' if lab == 'pos' else '<'}0] {short(e, 50)}"))
         need(n == 2, f"RATIOFORM: expected one bound-ratio np.where in {q}, found {n // 2}")
     return obs
@@ -384,7 +389,7 @@ def rule_filterwalk(ctx: Ctx) -> List[Ob]:
     return obs
 
 
-@rule("STEPINIT", min_instances=5)
+@rule("STEPINIT", min_instances=4)
 def rule_stepinit(ctx: Ctx) -> List[Ob]:
     """line-search set-up of Algorithm 778 (with the port's documented first-iteration cap): initial
     step min(1/||d||, stpmax) on the first iteration of an unboxed problem and 1 otherwise; initial
@@ -394,54 +399,87 @@ def rule_stepinit(ctx: Ctx) -> List[Ob]:
     f = ctx.repo.func("linesearch.line_search")
     obs: List[Ob] = []
     smax = sp.Symbol("stpmax", real=True)
-    init_if = [s for s in f.node.body if isinstance(s, ast.If) and any(
-        isinstance(x, ast.Assign) and src(x.targets[0]) == "steplength_0" for x in s.body)]
-    need(len(init_if) == 1, "STEPINIT: initial step selection not found")
-    t = init_if[0].test
-    okc = src(t).replace("(", "").replace(")", "") in ("above_iter == 0 and not is_boxed", "not is_boxed and above_iter == 0")
-    obs.append(ob("STEPINIT", "short first step only on iteration 0 of a problem with an infinite bound", f, init_if[0], okc,
+    from ..core import bool_equiv
+    init_stmt, t = None, None
+    for st in f.node.body:
+        if isinstance(st, ast.If) and any(isinstance(x, ast.Assign) and src(x.targets[0]) == "steplength_0" for x in st.body):
+            init_stmt, t = st, st.test
+        if isinstance(st, (ast.Assign, ast.AnnAssign)) and _top_targets(st) == ["steplength_0"] and isinstance(st.value, ast.IfExp):
+            init_stmt, t = st, st.value.test
+    need(init_stmt is not None, "STEPINIT: initial step selection not found")
+    okc = bool_equiv(t, "above_iter == 0 and not is_boxed")
+    flipped = bool_equiv(t, "not (above_iter == 0 and not is_boxed)")
+    obs.append(ob("STEPINIT", "short first step only on iteration 0 of a problem with an infinite bound", f, init_stmt, okc or flipped,
                   f"condition `{short(t)}`", construct="if above_iter == 0 and not is_boxed"))
     for outcome, ref in ((True, None), (False, Sc(1))):
-        K = Kernel(bindings={"d": Vec({"d": 1}), "g0": Vec({"g0": 1})}, conds={src(t): outcome}, maps={})
+        K = Kernel(bindings={"d": Vec({"d": 1}), "g0": Vec({"g0": 1})}, conds={src(t): (outcome != flipped)}, maps={})
         K.env["max_steplength"] = Sc(smax)
-        K.run([init_if[0]])
+        K.run([init_stmt])
         v = K.env.get("steplength_0")
         if outcome:
             a, b = sorted([sp.expand(1 / sp.sqrt(sp.Symbol("<d|d>"))), sp.expand(smax)], key=sp.default_sort_key)
             ref = Sc(sp.Function("min")(a, b))
         ok = v is not None and equal(v, ref)[0]
-        obs.append(ob("STEPINIT", f"initial step ({'first unboxed iteration' if outcome else 'otherwise'})", f, init_if[0], ok,
+        obs.append(ob("STEPINIT", f"initial step ({'first unboxed iteration' if outcome else 'otherwise'})", f, init_stmt, ok,
                       f"steplength_0 = {v.e if v is not None else '?'}" + ("" if ok else f"; reference {ref.e}"),
                       construct=f"steplength_0 [{outcome}]"))
-    K = Kernel(bindings={"d": Vec({"d": 1}), "g0": Vec({"g0": 1})}, conds={}, maps={})
-    sl = [s for s in f.node.body if set(_top_targets(s)) & {"dphi0", "f_m1", "dphi_m1"}]
-    K.env["f0"] = Sc(sp.Symbol("f0"))
-    K.run(sl)
-    ok = all(k in K.env for k in ("dphi0", "f_m1", "dphi_m1")) and equal(K.env["dphi0"], Sc(sp.Symbol("<d|g0>")))[0] and \
-        equal(K.env["f_m1"], Sc(sp.Symbol("f0")))[0] and equal(K.env["dphi_m1"], Sc(sp.Symbol("<d|g0>")))[0]
-    obs.append(ob("STEPINIT", "dcsrch is started with f(x0) and the slope g0.d", f, sl[0] if sl else f.node, ok,
-                  f"dphi0 = {K.env.get('dphi0')}, f_m1 = {K.env.get('f_m1')}, dphi_m1 = {K.env.get('dphi_m1')}",
-                  construct="dphi0 = g0.dot(d); f_m1 = f0; dphi_m1 = dphi0"))
-    # failure classification after the loop
-    tests = [s for s in f.node.body if isinstance(s, ast.If) and any(isinstance(x, ast.Return) for x in ast.walk(s))]
-    srcs = [src(s.test).replace(" ", "") for s in tests]
-    okt = any("task[:4]!=b'CONV'andtask[:4]!=b'WARN'" == x for x in srcs)
-    obs.append(ob("STEPINIT", "only CONVERGENCE / WARNING endings can yield a step", f, tests[-1] if tests else f.node, okt,
-                  f"return-None tests: {[short(s.test, 50) for s in tests]}", construct="if task is neither CONV nor WARN: return None"))
-    inner = [s for t0 in tests for s in ast.walk(t0) if isinstance(s, ast.If) and "isfinite" in src(s.test)]
-    okf = bool(inner) and src(inner[0].test).replace(" ", "") in ("notnp.isfinite(steplength)orsteplength==0.0", "steplength==0.0ornotnp.isfinite(steplength)")
-    obs.append(ob("STEPINIT", "a non-finite or zero step is a failure", f, inner[0] if inner else f.node, okf,
-                  f"`{short(inner[0].test) if inner else 'no test'}`", construct="if not isfinite(step) or step == 0: return None"))
+    # what the first dcsrch call receives: the start value and the slope g0.d (located by dataflow, not by name)
+    from ..flow import Expander
+    cfg, rd = ctx.cfg(f), ctx.rd(f)
+    ex = Expander(ctx, f)
+    loops = [x for x in f.node.body if isinstance(x, ast.While)]
+    need(len(loops) == 1, "STEPINIT: trial loop not found")
+    its = [c for c in ast.walk(loops[0]) if isinstance(c, ast.Call) and isinstance(c.func, ast.Attribute) and c.func.attr == "_iterate" and len(c.args) >= 3]
+    need(len(its) == 1, "STEPINIT: DCSRCH._iterate call not found in the trial loop")
+    n_it = cfg.node_of(its[0])
+    got = {}
+    for slot, a in (("f", its[0].args[1]), ("g", its[0].args[2])):
+        vals = []
+        if isinstance(a, ast.Name):
+            for dn, v, how in rd.value_exprs(n_it, a.id):
+                if v is not None and not cfg.in_loop(dn, loops[0]):
+                    vals.append(src(ex.expand(dn, v, 6)).replace(" ", ""))
+        got[slot] = vals
+    ok = got["f"] == ["f0"] and got["g"] in (["g0.dot(d)"], ["d.dot(g0)"], ["np.dot(g0,d)"], ["g0@d"])
+    obs.append(ob("STEPINIT", "dcsrch is started with f(x0) and the slope g0.d", f, its[0], ok,
+                  f"values reaching the first _iterate call from before the loop: f <- {got['f']}, g <- {got['g']}",
+                  construct="first dcsrch call: (f0, g0.dot(d))"))
     g = ctx.repo.func("linesearch.max_allowed_steplength")
     first = [s for s in g.node.body if isinstance(s, ast.If)]
     ok1 = bool(first) and src(first[0].test) == "n_iter == 0" and isinstance(first[0].body[0], ast.Return) and \
         isinstance(first[0].body[0].value, ast.Constant) and first[0].body[0].value.value == 1.0
     obs.append(ob("STEPINIT", "first-iteration step cap is 1 (documented deviation of the port)", g, first[0] if first else g.node, ok1,
                   f"{short(first[0], 60) if first else 'missing'}", construct="if n_iter == 0: return 1.0"))
-    rets = [r for r in ast.walk(g.node) if isinstance(r, ast.Return) and isinstance(r.value, ast.Call) and dotted(r.value.func) == "min"]
-    ok2 = len(rets) == 1 and {src(a).replace(" ", "") for a in rets[0].value.args} == {"max_steplength", "np.nanmin(_tmp[np.isfinite(_tmp)])"}
-    obs.append(ob("STEPINIT", "maximum step is min(user cap, smallest finite bound ratio)", g, rets[0] if rets else g.node, ok2,
-                  f"{short(rets[0].value) if rets else 'missing'}", construct="return min(max_steplength, nanmin(finite ratios))"))
+    from ..flow import Expander
+    gx = Expander(ctx, g)
+    gcfg, grd = ctx.cfg(g), ctx.rd(g)
+    vals: List[ast.expr] = []
+    for r in [x for x in ast.walk(g.node) if isinstance(x, ast.Return) and x.value is not None]:
+        if isinstance(r.value, ast.Constant):
+            continue
+        n = gcfg.node_of(r)
+        cands = [r.value]
+        if isinstance(r.value, ast.Name):
+            cands = [v for _, v, how in grd.value_exprs(n, r.value.id) if v is not None] or [r.value]
+        for v in cands:
+            if isinstance(v, ast.IfExp):
+                vals += [v.body, v.orelse]
+            else:
+                vals.append(v)
+    ok2, seen = bool(vals), []
+    for v in vals:
+        e = gx.expand_at(v, v) if not isinstance(v, ast.Name) else v
+        t = src(e).replace(" ", "")
+        seen.append(short(e, 60))
+        if t == "max_steplength":
+            continue
+        good = isinstance(e, ast.Call) and dotted(e.func) in ("min", "np.minimum") and len(e.args) == 2 and \
+            any(src(a) == "max_steplength" for a in e.args) and \
+            any(isinstance(a, ast.Call) and dotted(a.func) in ("np.nanmin", "np.min", "min") and "np.where(" in src(gx.expand_at(v, a)) and
+                "np.isfinite" in src(gx.expand_at(v, a)) for a in e.args)
+        ok2 = ok2 and good
+    obs.append(ob("STEPINIT", "maximum step is min(user cap, smallest finite bound ratio)", g, g.node, ok2,
+                  f"returned values: {seen}", construct="return min(max_steplength, nanmin(finite ratios))"))
     return obs
 
 
